@@ -875,11 +875,11 @@ func (c20) Generate(r *sim.Rand, tier string) *sim.Scenario {
 			if len(cands) > 0 {
 				a := cands[r.Intn(len(cands))]
 				m := marks[a]
-				k0 = int(m[r.Intn(len(m))]) + r.Intn(30)
+				k0 = int(m[r.Intn(len(m))]) + r.Intn(150)
 				sc.Cfg["first"] = float64(a)
 			}
 		}
-		n := r.Range(10, 80)
+		n := r.Range(20, 400) // statement-level yields: a storm has to last long enough for the storm-tossed tasks to make progress
 		for i := 0; i < n; i++ {
 			sc.Sched = append(sc.Sched, [2]int{k0, r.Intn(ntasks)})
 		}
